@@ -31,7 +31,7 @@ from kopf._core.reactor import orchestration
 from kv.explorer import Env, Scenario, UserAction, Violation, execute
 from kv.harness.op import make_settings, make_vault, resource_of
 from kv.runner import CheckResult, run_groups
-from kv.world import CRDS, EPOCH, EVENTS, KEX, KEX2, NAMESPACES, NS_PEERING, Kind, Request, Stream
+from kv.world import CRDS, EPOCH, EVENTS, KEX, KEX2, KEX_CLUSTER, NAMESPACES, NS_PEERING, Kind, Request, Stream
 
 INACTIVITY = 20.0
 
@@ -288,14 +288,14 @@ R1, R2 = KEX, KEX2
 class OrchestrationScenario(Scenario):
     name = 'c19-orchestration'
     prop = 'C19'
-    kinds = [KEX, KEX2]
+    kinds = [KEX, KEX2, KEX_CLUSTER]
     dev_when_ready = True
     horizon = 40.0
 
     def __init__(self, **params: Any) -> None:
         super().__init__(**params)
         if params.get('peering'):
-            self.kinds = [KEX, KEX2, NS_PEERING]
+            self.kinds = [KEX, KEX2, KEX_CLUSTER, NS_PEERING]
 
     def delays(self, env: Env, req: Request) -> bool:
         return False
@@ -343,7 +343,7 @@ class OrchestrationScenario(Scenario):
 
     def script(self, env: Env) -> list[UserAction]:
         out = []
-        resources = {'r1': resource_of(R1), 'r2': resource_of(R2)}
+        resources = {'r1': resource_of(R1), 'r2': resource_of(R2), 'r3': resource_of(KEX_CLUSTER)}    # r3 is cluster-scoped
 
         def mk(action: str, what: str) -> Any:
             def fn(e: Env) -> None:
@@ -377,7 +377,8 @@ class OrchestrationScenario(Scenario):
         if env.owes():
             return out
         ins = env.memo['insights']
-        want = {(r.plural, ns) for r in ins.watched_resources for ns in ins.namespaces}
+        # a cluster-scoped kind is watched once, cluster-wide, as long as anything is served at all
+        want = {(r.plural, ns if r.namespaced else None) for r in ins.watched_resources for ns in ins.namespaces}
         if self.params.get('peering'):
             # paused (no resource watches at all) while a served namespace lacks its peering object or shows a live blocker there
             blocked = [ns for ns in ins.namespaces
@@ -548,7 +549,8 @@ def discovery_scenarios(tier: str) -> list[DiscoveryScenario]:
 
 def orchestration_scenarios(tier: str) -> list[OrchestrationScenario]:
     out = []
-    alphabet = [('addns', 'n1'), ('addns', 'n2'), ('delns', 'n1'), ('delns', 'n2'), ('addres', 'r1'), ('addres', 'r2'), ('delres', 'r1'), ('delres', 'r2')]
+    alphabet = [('addns', 'n1'), ('addns', 'n2'), ('delns', 'n1'), ('delns', 'n2'), ('addres', 'r1'), ('addres', 'r2'), ('delres', 'r1'), ('delres', 'r2'),
+                ('addres', 'r3'), ('delres', 'r3')]
     depth = 3 if tier == 'quick' else 4
     for d in range(1, depth + 1):
         for combo in itertools.product(alphabet, repeat=d):
